@@ -33,6 +33,9 @@ open Streams
                    = #GetStream that returned x + [bit x set after the prefix P]
         Available() at the end = number of zero bits of the bitset
         an id handed out is in 1..NumStreams-1 as long as Clear(0) has not been called
+        the calls in the order of their linearization points (bit set by a GetStream CAS, bit cleared by a Clear
+        CAS, Clear load that saw the bit clear) are a history of the sequential id-set specification and every
+        call returns the answer of its linearization point (C08_linearizable_partial, C08_lp_answers; not after Clear(0))
         'negative streams inuse' panic only after an excluded event (Clear(0) called, or a Clear CAS that
         cleared the bit of an id whose GetStream had not returned yet); index panic only for id >= NumStreams
       scenarios whose scripts respect the client protocol (every Clear names an id in use after P, no id is
@@ -131,6 +134,8 @@ structure Conc where
   excl : Bool := false
   /-- a monitor of the protocol-free theorems fired on the model run (never: Proofs/C08) -/
   viol : Bool := false
+  /-- the linearization of the run (`Streams.linOf`), most recent linearization point first -/
+  lin : List (Op × Option Ret) := []
 
 def resolve (mine : List Nat) : SOp → Op × List Nat
   | .op o => (o, mine)
@@ -176,7 +181,8 @@ def concStep (c : Conc) (t : Nat) : Conc × String :=
               | _ => true)
           | _ => false
         let c' : Conc := { st := st', scripts := c.scripts.set t script', mine := c.mine.set t mine'',
-                           evs := evOf c.st a ++ c.evs, c0 := c0', excl := excl', viol := c.viol || bad }
+                           evs := evOf c.st a ++ c.evs, c0 := c0', excl := excl', viol := c.viol || bad,
+                           lin := (linOf c.st a).reverse ++ c.lin }
         match r with
         | some _ => (c', toString t ++ ":" ++ showRet r ++ ":" ++ nextYield script' mine'')
         | none => (c', toString t ++ ":y" ++ toString ((st'.threads.getD t .idle).yieldPoint))
@@ -297,6 +303,10 @@ def monitorsAny (c : Conc) (w0 : List Word) : Bool :=
     && ids.all (fun x => c.evs.count (.released x) + b2n (bitAt ws x) == c.evs.count (.got x) + b2n (bitAt w0 x))
     && ids.foldl clrId ws == ids.foldl clrId w0
     && decide (available c.st.sh = ((cap - popcount ws : Nat) : Int))
+    -- C08_linearizable_partial: the calls in the order of their linearization points are a history of the
+    -- sequential specification, starting from the set of ids in use after the prefix (Clear(0) excluded)
+    && (c.c0 || (specAccepts cap { tbl := (Array.range cap).map (fun id => id != 0 && bitAt w0 id), cnt := popcount w0 - 1 }
+                  c.lin.reverse).isSome)
 
 def parseSeqOps : List String → Option (List HOp)
   | [] => some []
